@@ -31,6 +31,24 @@ Definition seal_from (ok : bool) (key nonce plain ad ct : list Z) : list Z -> li
 
 Definition zb (z : Z) : bool := negb (z =? 0).
 
+(* the AES-SIV answers of one exchange: (valid, key, nonce, plaintext, associated data, ciphertext) *)
+Record aead_q := { q_ok : bool; q_key : list Z; q_nonce : list Z; q_plain : list Z; q_ad : list Z; q_ct : list Z }.
+Fixpoint seal_of (qs : list aead_q) (k n p a : list Z) : list Z :=
+  match qs with
+  | [] => repeat 0 (length p + 16)
+  | q :: r => if q_ok q && beq k (q_key q) && beq n (q_nonce q) && beq p (q_plain q) && beq a (q_ad q)
+              then q_ct q else seal_of r k n p a
+  end.
+Fixpoint open_of (qs : list aead_q) (k n c a : list Z) : option (list Z) :=
+  match qs with
+  | [] => None
+  | q :: r => if q_ok q && beq k (q_key q) && beq n (q_nonce q) && beq c (q_ct q) && beq a (q_ad q)
+              then Some (q_plain q) else open_of r k n c a
+  end.
+(* the cookies the server made: the ones observed in the reply, then as many more as it was asked for *)
+Definition observed_cookies (cs : list (list Z)) (n : nat) : list (list Z) :=
+  (cs ++ repeat (repeat 0 (length (hd [] cs))) (n - length cs))%list.
+
 (* everything EncodePacket writes before the authenticator *)
 Definition encode_prefix (hdr : list Z) (p : packet) : outcome (list Z) :=
   if negb (zlen hdr =? ntpPacketLen) then Panic else
@@ -125,7 +143,8 @@ Record hstep := {
   h_req_nonce : list Z; h_req_ct : list Z;
   h_nrep : Z;
   h_rep_nonce : list Z; h_rep_ct : list Z; h_rep_plain : list Z;
-  h_client_err : bool
+  h_client_err : bool;
+  h_stray : Z              (* further datagrams of the client in the same call: the model makes one request per call *)
 }.
 
 Definition parse_cookie_facts (v : value) : option cookie_facts :=
@@ -141,23 +160,37 @@ Fixpoint parse_facts (l : list value) : option (list cookie_facts) :=
               | Some c, Some cs => Some (c :: cs) | _, _ => None end
   end.
 
+Fixpoint parse_extras (l : list value) : option (list (list Z * bool * list cookie_facts)) :=
+  match l with
+  | [] => Some []
+  | VL [VB r; VZ a; VL cv] :: rest =>
+      match parse_facts cv, parse_extras rest with
+      | Some cfs, Some es => Some ((r, zb a, cfs) :: es)
+      | _, _ => None
+      end
+  | _ => None
+  end.
+
 Definition parse_step (sv ov : value) : option hstep :=
   match sv, ov with
   | VL [VZ _; VZ action; VZ _],
     VL [VZ sent; VB req; VB rnonce; VB rct; VZ openable; VZ fwd; VZ nrep; VB rep; VB pnonce; VB pct;
-        VZ authok; VB plain; VL cookiesv; VZ intact; VZ cerr; VZ ked; VL poolv; VB k1; VB k2; VZ curk; VL forgedv; VZ nosend] =>
-      match parse_facts cookiesv, getBs poolv, getBs forgedv with
-      | Some cfs, Some pool, Some forged =>
+        VZ authok; VB plain; VL cookiesv; VZ intact; VZ cerr; VZ ked; VL poolv; VB k1; VB k2; VZ curk; VL forgedv; VZ nosend;
+        VL extrav; VL seenv; VZ stray] =>
+      match parse_facts cookiesv, getBs poolv, getBs forgedv, parse_extras extrav, getBs seenv with
+      | Some cfs, Some pool, Some forged, Some extra, Some seen =>
           Some {| h_action := action;
                   h_obs := {| so_sent := zb sent; so_req := req; so_openable := zb openable;
                               so_forwarded := 0 <? fwd; so_served := 0 <? nrep; so_reply := rep;
                               so_reply_auth := zb authok; so_reply_cookies := cfs; so_intact := zb intact;
                               so_rekeyed := 0 <? ked; so_pool_after := pool; so_c2s := k1; so_s2c := k2;
-                              so_cur_key := curk; so_forged := forged; so_nosend := nosend |};
+                              so_cur_key := curk; so_forged := forged;
+                              so_nforwarded := fwd; so_nreplies := nrep; so_extra := extra; so_seen_before := seen;
+                              so_nosend := nosend |};
                   h_req_nonce := rnonce; h_req_ct := rct; h_nrep := nrep;
                   h_rep_nonce := pnonce; h_rep_ct := pct; h_rep_plain := plain;
-                  h_client_err := zb cerr |}
-      | _, _, _ => None
+                  h_client_err := zb cerr; h_stray := stray |}
+      | _, _, _, _, _ => None
       end
   | _, _ => None
   end.
@@ -174,68 +207,58 @@ Definition act_kefail : Z := 6.
 
 (* does the model accept this observed call, the client being in state pre *)
 Definition step_agree (pre : client) (h : hstep) : bool :=
+  (h_stray h =? 0) &&
   let o := h_obs h in
   let post_pool := so_pool_after o in
   if so_sent o then
     let req := so_req o in
     let hdr := firstn 48 req in
     let uid := firstn 32 (skipn 52 req) in
-    let wire_cookie := firstn (Z.to_nat serverCookieLen) (skipn 88 req) in
+    let wire_cookie := match request_cookie req with Some c => c | None => [] end in
     let ke_needed := match pool pre with [] => true | _ => false end in
-    (* FetchData *)
+    (* FetchData; after a key exchange its cookies are the one on the wire and what is in the pool
+       apart from the cookies this call's reply brought *)
+    let nstored := if so_intact o then length (so_reply_cookies o) else O in
     let ke := if ke_needed
-              then KeOk (wire_cookie :: firstn (Nat.pred keCookies) post_pool) (so_c2s o) (so_s2c o)
+              then KeOk (wire_cookie :: firstn (length post_pool - nstored) post_pool) (so_c2s o) (so_s2c o)
               else KeErr in
     Bool.eqb ke_needed (so_rekeyed o) &&
     match fetch pre ke with
     | None => false
     | Some (d, c1) =>
         beq (c2s d) (so_c2s o) && beq (s2c d) (so_s2c o) &&
-        (* NewRequestPacket, EncodePacket *)
-        let ad := firstn (length req - 40) req in
-        let sl := seal_from true (c2s d) (h_req_nonce h) [] ad (h_req_ct h) in
-        match obind (new_request (pool d) (c2s d) uid) (fun pkt => encode_packet sl hdr pkt (h_req_nonce h)) with
+        (* the three parts of the exchange, on the observed datagrams *)
+        let rep := so_reply o in
+        let plain := h_rep_plain h in
+        let qs := [ {| q_ok := true; q_key := c2s d; q_nonce := h_req_nonce h; q_plain := [];
+                       q_ad := firstn (length req - 40) req; q_ct := h_req_ct h |};
+                    {| q_ok := so_reply_auth o; q_key := s2c d; q_nonce := h_rep_nonce h; q_plain := plain;
+                       q_ad := firstn (length rep - Z.to_nat (24 + pad4 (zlen plain + 16))) rep; q_ct := h_rep_ct h |} ] in
+        let cs_obs := map cf_bytes (so_reply_cookies o) in
+        match client_request (seal_of qs) d uid (h_req_nonce h) hdr with
         | Ok b => beq b req
         | _ => false
         end &&
-        (* the server *)
+        (* the server answers exactly the requests whose cookie it can open *)
         Bool.eqb (so_served o) (so_forwarded o && so_openable o) &&
         (if so_intact o then so_served o else true) &&
-        match (if so_served o then
-                 match decode_packet req, plain_cookies (S (length (h_rep_plain h))) (h_rep_plain h) 0 [] with
-                 | Ok dq, Ok cs =>
-                     match d_uid dq, cs with
-                     | Some quid, c0 :: _ =>
-                         let rep := so_reply o in
-                         let rad := firstn (length rep - Z.to_nat (24 + pad4 (zlen (h_rep_plain h) + 16))) rep in
-                         let sl2 := seal_from (so_reply_auth o) (s2c d) (h_rep_nonce h) (h_rep_plain h) rad (h_rep_ct h) in
-                         if (zlen cs =? reply_count (server_issue_count dq) (zlen quid) (zlen c0)) &&
-                            bseq cs (map cf_bytes (so_reply_cookies o)) &&
-                            (* key := provider.Current(): every new cookie names the current key *)
-                            forallb (fun c => cf_keyid c =? so_cur_key o) (so_reply_cookies o) &&
-                            match obind (new_response cs (s2c d) quid)
-                                    (fun rp => encode_packet sl2 (firstn 48 rep) rp (h_rep_nonce h)) with
-                            | Ok b => beq b rep
-                            | _ => false
-                            end
-                         then
-                           (* the client: DecodePacket + ProcessResponse store the cookies of the reply *)
-                           match decode_packet rep with
-                           | Ok dr => Some (d_cookies dr ++ cs)%list
-                           | _ => None
-                           end
-                         else None
-                     | _, _ => None
-                     end
-                 | _, _ => None
-                 end
-               else Some []) with
-        | None => false
-        | Some stored =>
-            let c2 := if so_intact o then store c1 stored else c1 in
-            bseq (pool c2) post_pool &&
-            (if so_intact o then true else h_client_err h)
-        end
+        (if so_served o then
+           match server_reply (seal_of qs) (open_of qs) req (c2s d) (s2c d) (observed_cookies cs_obs)
+                   (h_rep_nonce h) (firstn 48 rep) with
+           | Ok (b, sent) =>
+               beq b rep && bseq sent cs_obs &&
+               (* key := provider.Current(): every new cookie names the current key *)
+               forallb (fun c => cf_keyid c =? so_cur_key o) (so_reply_cookies o)
+           | _ => false
+           end
+         else true) &&
+        (* the client takes the cookies of an authentic reply, and of nothing else *)
+        (if so_intact o then
+           match client_process (open_of qs) rep (s2c d) uid c1 with
+           | Ok c2 => bseq (pool c2) post_pool
+           | _ => false
+           end
+         else bseq (pool c1) post_pool && h_client_err h)
     end
   else if so_nosend o =? 0 then
     (* exchangeKeys failed (however the peer misbehaved): f.data = Data{} *)
@@ -300,12 +323,12 @@ Definition glue_srv (a o : list value) : option verdict :=
   match o with
   | [VL [VZ 0]] => Some (relational true true)          (* the request could not be encoded: nothing sent *)
   | [VL [VZ 99]] => Some (relational false false)       (* the process died *)
-  | [VL [VZ 1; VB req; VZ nrep; VB rep; VB pnonce; VB pct; VZ authok; VB plain; VL cookiesv; VB k1; VB k2; VZ curk; VZ openz; VZ warm]] =>
+  | [VL [VZ 1; VB req; VZ nrep; VB rep; VB pnonce; VB pct; VZ authok; VB plain; VL cookiesv; VB k1; VB k2; VZ curk; VZ openz; VZ warm; VL seenv]] =>
       match parse_facts cookiesv with
       | None => None
       | Some cfs =>
           let served := 0 <? nrep in
-          let oracle := ((warm =? -1) || (warm =? 1)) &&
+          let oracle := ((warm =? -1) || (warm =? 1)) && (match seenv with [] => true | _ => false end) &&
                         if zb openz
                         then (nrep =? 1) && reply_ok req rep (zb authok) cfs k1 k2 (values_or_nil req) curk
                         else nrep =? 0 (* a cookie under an expired key is refused *) in
@@ -332,6 +355,71 @@ Definition glue_srv (a o : list value) : option verdict :=
   | _ => None
   end.
 
+(* ---- c11.conc: FetchData from several goroutines at once ---- *)
+Definition subset (a b : list (list Z)) : bool := forallb (fun x => mem x b) a.
+Definition conc_round (v : value) : option (bool * bool) :=
+  match v with
+  | VL [VL bv; VL hv; VL av] =>
+      match getBs bv, getBs hv, getBs av with
+      | Some before, Some heads, Some after =>
+          let g := length heads in
+          (* model: the calls take the lock one after the other: each pops the head *)
+          let agree := bseq after (skipn g before) && subset heads (firstn g before) && subset (firstn g before) heads in
+          (* oracle: no cookie handed to two calls; every one came from the pool and left it *)
+          let oracle := distinct heads && subset heads before && forallb (fun x => negb (mem x after)) heads &&
+                        (zlen after =? zlen before - Z.of_nat g) && subset after before in
+          Some (agree, oracle)
+      | _, _, _ => None
+      end
+  | _ => None
+  end.
+Fixpoint conc_rounds (l : list value) : option (bool * bool) :=
+  match l with
+  | [] => Some (true, true)
+  | v :: r => match conc_round v, conc_rounds r with
+              | Some (a, o), Some (a', o') => Some (a && a', o && o')
+              | _, _ => None
+              end
+  end.
+Definition glue_conc (a o : list value) : option verdict :=
+  match o with
+  | [VL [VZ 99]] => Some (relational false false)
+  | [VL rounds] => match conc_rounds rounds with Some (ag, orc) => Some (relational ag orc) | None => None end
+  | _ => None
+  end.
+
+(* ---- c11.ilv: interleaved mode, several exchanges per call ---- *)
+Definition request_ok_any (req : list Z) : bool :=
+  existsb (fun l => request_ok l req) [1; 2; 3; 4; 5; 6; 7; 8].
+(* state: cookies sent so far; result: still fine *)
+Fixpoint ilv_calls (sent : list (list Z)) (l : list value) : option bool :=
+  match l with
+  | [] => Some true
+  | VL [VL reqsv; VL poolv; VZ _] :: rest =>
+      match getBs reqsv, getBs poolv with
+      | Some reqs, Some pool =>
+          let cookies := flat_map (fun r => match request_cookie r with Some c => [c] | None => [] end) reqs in
+          let sent' := (cookies ++ sent)%list in
+          let ok := (length reqs <=? 3)%nat && (length cookies =? length reqs)%nat &&
+                    forallb request_ok_any reqs &&
+                    distinct sent' &&                                   (* every exchange of every call its own cookie *)
+                    (zlen pool <=? 8) && distinct pool &&
+                    forallb (fun x => negb (mem x sent')) pool in       (* a cookie that was sent is gone *)
+          match ilv_calls sent' rest with
+          | Some b => Some (ok && b)
+          | None => None
+          end
+      | _, _ => None
+      end
+  | _ => None
+  end.
+Definition glue_ilv (a o : list value) : option verdict :=
+  match o with
+  | [VL [VZ 99]] => Some (relational false false)
+  | [VL calls] => match ilv_calls [] calls with Some b => Some (relational b b) | None => None end
+  | _ => None
+  end.
+
 Definition glue_C11 (k : string) (a o : list value) : option verdict :=
   if is k "c11.const" then
     Some (functional [VZ MaxPacketLen; VZ serverCookieLen; VZ ntpPacketLen] o
@@ -344,6 +432,8 @@ Definition glue_C11 (k : string) (a o : list value) : option verdict :=
   else if is k "c11.shist" then glue_hist a o
   else if is k "c11.store" then glue_store a o
   else if is k "c11.srv" then glue_srv a o
+  else if is k "c11.conc" then glue_conc a o
+  else if is k "c11.ilv" then glue_ilv a o
   else None.
 
 Definition run_case k a o := first_some [glue_C11] k a o.
